@@ -116,3 +116,8 @@ impl UdpSocket {
             .map_err(|e| e.into())
     }
 }
+
+#[cfg(feature = "isomer_erbium_verif")]
+mod isomer_erbium_verif {
+    include!(concat!(env!("ISOMER_ERBIUM_VERIF_DIR"), "/net_udp.rs"));
+}
